@@ -328,6 +328,14 @@ def _rule_cases(R, rng, rfi, quick):
             for i in rng.sample(range(n), 2):
                 v[i] += rng.uniform(50, 500)
             vecs.append(("planted2", v))
+        if n >= 8:
+            # one extreme outlier (a channel with a single huge spike has kurtosis ~ nsamples) must not hide a moderate one:
+            # the spread of the rest is 0.05, so the moderate channel lies 20 spreads out while its plain deviation is below every threshold
+            v = nprng.normal(10, 0.05, n)
+            i, j = rng.sample(range(n), 2)
+            v[i] += rng.choice([-1, 1]) * 0.05 * 10 ** rng.uniform(8, 10)
+            v[j] += 1.0
+            vecs.append(("masked", v))
         vecs.append(("allequal", np.full(n, rng.choice([0.0, 1.0, -7.5, 1e4]))))
         vecs.append(("twovalued", np.where(np.arange(n) % 2 == 0, 1.0, 3.0)))
         vecs.append(("ints", nprng.integers(-20, 20, n).astype(np.float64)))
